@@ -9,6 +9,7 @@ nest site=<chk|bf|af> k=<n>      -> ok        the next n lines are the calls the
 <call>              (n times)    -> queued    write after them makes on the same Value / Collection
 vset msg=<msg> <write opts>      -> val=… err=… ev=[…] in=[<val>,<err>|<msg>;…] | st=… clk=n
 upd|add id=<id> msg=<msg> <opts> -> val=… err=… ev=[…] ids=[…] created=n in=[…] | st=[…] clk=n
+del id=<id> <write opts>         -> the same (the calls are made by the expected check, on its first invocation)
 ```
 -/
 namespace ScVerif.C01
@@ -77,6 +78,15 @@ def handleNestC (cfg : FCfg) (s : CState Msg (List Nat)) (site : Site) (queued :
   let (o, s', rs) := if isAdd then Coll.addN cfg s id msg wr site calls else Coll.updateN cfg s id msg wr site calls
   pure (.coll cfg s', showCOut o ++ " in=" ++ showList (rs.map showCRes) ++ " | " ++ showCState s')
 
+def handleNestD (cfg : FCfg) (s : CState Msg (List Nat)) (site : Site) (queued : List (List String))
+    (rest : List String) : Option (DrvState × String) := do
+  let calls ← queued.mapM parseCOp?
+  let kv ← parseKV rest
+  let id ← kvGet kv "id"
+  let wr ← parseWriteReq? kv
+  let (o, s', rs) := Coll.deleteN cfg s id wr site calls
+  pure (.coll cfg s', showCOut o ++ " in=" ++ showList (rs.map showCRes) ++ " | " ++ showCState s')
+
 def showVRes : VRes Msg → String
   | .got v => showOptMsg v
   | .wrote o => s!"{showOptMsg o.val},{showErr o.err}"
@@ -116,6 +126,10 @@ def handleN (st : NSt) (toks : List String) : NSt × String :=
     | .coll cfg s =>
       if op = "upd" || op = "add" then
         match handleNestC cfg s site acc (op = "add") rest with
+        | some (b, a) => ({ base := b, pend := none }, a)
+        | none => ({ st with pend := none }, "!bad-op")
+      else if op = "del" then
+        match handleNestD cfg s site acc rest with
         | some (b, a) => ({ base := b, pend := none }, a)
         | none => ({ st with pend := none }, "!bad-op")
       else ({ st with pend := none }, "!bad-op")
